@@ -328,6 +328,8 @@ def load(I, arr, idx, node, env):
         if isinstance(it, Arr) and it.dtype != "bool":
             v = it.val
             return Arr(it.shape, arr.at(v) if isinstance(v, Expr) else Unknown("gather index"), arr.dtype, {"gather_of": (arr, it)})
+    if isinstance(arr, SymArr) and arr.ndim >= 2 and len(items) == arr.ndim and all(isinstance(it, Expr) for it in items) and arr.meta.get("role") != "field":
+        return alg.fn("at", arr.sym, *items, pos=arr.elempos)
     if "diff_of" in arr.meta and len(items) == 1 and isinstance(items[0], Expr):
         base = arr.meta["diff_of"]
         if isinstance(base, SymArr):
@@ -348,8 +350,15 @@ def load(I, arr, idx, node, env):
         if isinstance(it, SliceV):
             if it.is_full():
                 shape.append(dim)
+            elif arr.ndim == 1 and it.lo is None and it.hi is None and const_int(it.step) == -1:
+                r = _reverse(arr)
+                if isinstance(r, Arr):
+                    return r
+                shape.append(dim)
             else:
                 ln, lo = _slice_len(I, it, dim)
+                if arr.ndim == 1:
+                    meta["slice1d"] = (it.lo, it.hi, arr)
                 if ln is None or isinstance(ln, Unknown):
                     shape.append(alg.fn("len", alg.sym("slice@%s" % getattr(node, "lineno", 0)), integer=True))
                 else:
@@ -384,6 +393,10 @@ def load(I, arr, idx, node, env):
                 if c == 0 and "lvl0" in arr.meta:
                     val = arr.meta["lvl0"]
                 meta.pop("lvl0", None)
+            elif arr.ndim == 1 and const_int(it) == -1 and isinstance(val, Expr) and "gen" not in arr.meta and not isinstance(arr, SymArr):
+                val = alg.fn("last", val)
+            elif arr.ndim == 1 and isinstance(val, Expr) and any(a.kind == "fn" and a.name in ("gather", "cumsum", "permidx") for a in val.atoms()):
+                val = alg.fn("pick", val, it)
             elif arr.ndim == 1:
                 if "gen" in arr.meta:
                     val = arr.meta["gen"](it)
@@ -424,7 +437,7 @@ def load(I, arr, idx, node, env):
                     val = val.subs({ua: req.val})
                     if "lvl0" in meta and isinstance(meta["lvl0"], Expr):
                         meta["lvl0"] = meta["lvl0"].subs({ua: req.val})
-            elif isinstance(val, Expr) and not isinstance(arr, SymArr):
+            elif isinstance(val, Expr) and (not isinstance(arr, SymArr) or arr.ndim == 1):
                 val = alg.fn("gather", val, it.val if isinstance(it.val, Expr) else alg.sym("?"))
             axis += 1
         elif isinstance(it, Unknown):
@@ -527,7 +540,7 @@ def store(I, arr, idx, v, node, env):
     sv = val_of(v)
     # dtype discipline: a float stored into storage whose dtype is inherited from an argument
     vd = v.dtype if isinstance(v, Arr) else _scalar_dtype(v)
-    if (arr.dtype or "").startswith("inherit") and vd not in (None, "bool", "int", "int64") and not (vd or "").startswith("inherit"):
+    if (arr.dtype or "").startswith("inherit") and vd not in (None, "bool", "int", "int64") and ((not (vd or "").startswith("inherit")) or vd != arr.dtype):
         I.event("dtype", node, "value of kind %s stored into %s whose dtype is %s" % (vd, arr.name, arr.dtype))
     new = arr.copy()
     new.meta = dict(arr.meta)
@@ -546,10 +559,20 @@ def store(I, arr, idx, v, node, env):
         else:
             new.val = alg.fn("upd", new.val if isinstance(new.val, Expr) else alg.sym("?"), sv if isinstance(sv, Expr) else alg.sym("?")) if isinstance(new.val, Expr) else new.val
     elif level[0] == "scatter":
-        new.val = sv
-        new.meta["scatter"] = level[1]
+        ix = level[1]
+        new.val = alg.fn("scatter", sv, ix.val) if isinstance(sv, Expr) and isinstance(ix.val, Expr) else Unknown("scatter")
+        new.meta["scatter"] = ix
     elif level[0] in ("partial", "elem"):
-        if isinstance(new.val, Expr) and isinstance(sv, Expr):
+        sl = v.meta.get("slice1d") if isinstance(v, Arr) else None
+        tgt = level[1] if level[0] == "partial" else None
+        if (tgt is not None and arr.ndim == 1 and isinstance(new.val, Expr) and new.val.is_zero() and const_int(tgt.lo) == 1 and tgt.hi is None
+                and sl is not None and sl[0] is None and const_int(sl[1]) == -1 and isinstance(sv, Expr)):
+            cs = [a for a in [sv.as_mono()[1][0][0]] if a.kind == "fn" and a.name == "cumsum"] if sv.as_mono() is not None and len(sv.as_mono()[1]) == 1 and sv.as_mono()[0] == alg.C1 else []
+            if cs:
+                new.val = sv - cs[0].args[0]  # zeros, then shifted right by one: the exclusive prefix sum  cumsum(s) - s
+            else:
+                new.val = alg.fn("shifted", sv)
+        elif isinstance(new.val, Expr) and isinstance(sv, Expr):
             new.val = alg.fn("upd", new.val, sv)
         new.meta["partial_store"] = True
     return new
@@ -619,7 +642,10 @@ def method(I, f, args, kwargs, node):
             t = ONE
             for d in b.shape:
                 t = t * d
-            return Arr((t,), b.val, b.dtype, {"ravel_of": b})
+            dt = b.dtype
+            if isinstance(b, SymArr):
+                dt = "inherit:%s" % b.name
+            return Arr((t,), b.val, dt, {"ravel_of": b, "param_derived": b.meta.get("param") or b.meta.get("param_derived")})
         if name == "reshape":
             shp = args[0] if len(args) == 1 else Tup(args)
             if isinstance(shp, Tup) and all(isinstance(x, Expr) for x in shp.items):
@@ -924,7 +950,9 @@ def np_full_like(kind):
         val = {"ones": ONE, "zeros": ZERO, "empty": alg.sym("uninitialised")}[kind]
         if isinstance(x, Arr):
             if dt is None:
-                if isinstance(x, SymArr) or (x.dtype or "").startswith("inherit") or x.meta.get("param_derived"):
+                if (x.dtype or "").startswith("inherit"):
+                    dt = x.dtype
+                elif isinstance(x, SymArr) or x.meta.get("param_derived"):
                     dt = "inherit:%s" % (x.meta.get("param") or x.meta.get("param_derived") or x.name)
                 else:
                     dt = x.dtype
@@ -1204,6 +1232,41 @@ def np_clip(I, args, kwargs, node):
     return Unknown("np.clip")
 
 
+def np_argsort(I, args, kwargs, node):
+    x = args[0]
+    if not (isinstance(x, Arr) and isinstance(x.val, Expr)):
+        return Unknown("np.argsort")
+    key, direction = x.val, "asc"
+    if alg._lead_negative(key) and len(key.n) == 1:
+        key, direction = -key, "desc"  # argsort(-k) sorts k descending
+    return Arr(x.shape, alg.fn("permidx", direction, key), "int", {"perm": (direction, key)})
+
+
+def np_flip(I, args, kwargs, node):
+    x = args[0]
+    if isinstance(x, Arr):
+        return _reverse(x)
+    return Unknown("np.flip")
+
+
+def _reverse(x):
+    p = x.meta.get("perm")
+    if p is not None:
+        d = "desc" if p[0] == "asc" else "asc"
+        return Arr(x.shape, alg.fn("permidx", d, p[1]), x.dtype, {"perm": (d, p[1])})
+    if isinstance(x.val, Expr):
+        return Arr(x.shape, alg.fn("reversed", x.val), x.dtype, {})
+    return Unknown("reversed array")
+
+
+def np_searchsorted(I, args, kwargs, node):
+    a, v = args[0], args[1]
+    side = _kw(args, kwargs, 2, "side", "left")
+    if isinstance(a, Arr) and isinstance(a.val, Expr) and isinstance(v, Expr) and isinstance(side, str):
+        return alg.fn("searchsorted", a.val, v, side, integer=True)
+    return Unknown("np.searchsorted")
+
+
 def np_sum(I, args, kwargs, node):
     x = args[0]
     if isinstance(x, Arr) and isinstance(x.val, Expr):
@@ -1214,7 +1277,7 @@ def np_sum(I, args, kwargs, node):
 def np_cumsum(I, args, kwargs, node):
     x = args[0]
     if isinstance(x, Arr) and isinstance(x.val, Expr):
-        return Arr(x.shape, alg.fn("cumsum", x.val), x.dtype, {"cumsum_of": x})
+        return Arr(x.shape, alg.fn("cumsum", x.val), x.dtype, {"cumsum_of": x, "param_derived": x.meta.get("param_derived")})
     return Unknown("np.cumsum")
 
 
@@ -1388,6 +1451,9 @@ EXT = {
     "numpy.rad2deg": np_rad2deg,
     "numpy.arctan2": np_arctan2,
     "numpy.sum": np_sum,
+    "numpy.argsort": np_argsort,
+    "numpy.flip": np_flip,
+    "numpy.searchsorted": np_searchsorted,
     "numpy.maximum": np_minmax2("max"),
     "numpy.minimum": np_minmax2("min"),
     "numpy.fmax": np_minmax2("max"),
